@@ -601,6 +601,20 @@ pub fn c05_exhaustive(tier: &str, acc: &mut Acc) -> Value {
             vec![0],
         ),
     ];
+    let mut confs = confs;
+    if tier == "thorough" {
+        // a five-column configuration (3125 rows): bidirectional pair split around a clock
+        confs.push((
+            vec![
+                Sig { name: "Q".into(), bits: 3, kind: SigKind::Out },
+                Sig { name: "A".into(), bits: 1, kind: SigKind::In(InVal::V(1)) },
+                Sig { name: "D".into(), bits: 2, kind: SigKind::Bidir(InVal::Z) },
+                Sig { name: "CLK".into(), bits: 1, kind: SigKind::In(InVal::V(0)) },
+            ],
+            vec!["A".into(), "D_out".into(), "CLK".into(), "Q".into(), "D".into()],
+            vec![2, 0],
+        ));
+    }
     let alphabet = [0u8, 1, 2, 3, 4]; // 0,1,X,C,Z
     let mut n = 0u64;
     for (ci, (sigs, header, layout)) in confs.iter().enumerate() {
